@@ -15,14 +15,15 @@ _RULE = ("histories of 20-60 (thorough: 20-110) abstract steps over 8 actors (2 
 
 _common = dict(
     driver="service",
-    coq_targets=["Service/Check.vo", "Service/Proofs.vo", "Service/ProofsHist.vo", "Service/ProofsEscrow.vo", "Service/ProofsSched.vo", "Service/ProofsBatch.vo", "Service/ProofsLiab.vo", "Service/ProofsTally.vo", "Service/ProofsLive.vo"],
+    coq_targets=["Service/Check.vo", "Service/Proofs.vo", "Service/ProofsHist.vo", "Service/ProofsEscrow.vo", "Service/ProofsSched.vo", "Service/ProofsBatch.vo", "Service/ProofsLiab.vo", "Service/ProofsTally.vo", "Service/ProofsLive.vo", "Service/ProofsModule.vo", "Service/ProofsFresh.vo", "Service/ProofsCallback.vo", "Service/ProofsSchedule.vo", "Service/ProofsModuleHist.vo", "Service/ProofsOutcome.vo"],
     check_module="Service.Check",
     streams=[dict(name="main", quick=80, thorough=3600), dict(name="sched", quick=20, thorough=600)],
     coq_shard=12,
     trusted_base=["request-context ids = tx hash || per-block index, request ids = context id || batch || height || index: "
                   "identified with their pre-images (the harness checks the id returned by CallService starts with the tx hash)",
                   "JSON / JSON-schema validation of inputs, outputs, results, pricing documents is an oracle (the step carries the accept bit)"],
-    assumptions=["fresh_history: no request-context id (tx hash, per-block index) is issued while a context with that id is still stored (distinct transactions have distinct hashes); used by request_escrow_eq_liabilities only",
+    assumptions=["distinct context-creating transactions have distinct hashes (NoDup (create_txhs steps)); fresh_history is derived from it (fresh_history_from_distinct_hashes)",
+                 "c_msvc c < 0 (no module-served service) only in request_single_outcome (hypothesis-free form; the general form request_single_outcome_with_module_services uses distinct hashes) and request_escrow_preserved_by_transactions",
                  "the exchange-rate source is the table the SetRate steps maintain (the harness installs a module service answering from it)"],
 )
 
